@@ -605,3 +605,198 @@ def _chdir_call_sites(ctx):
                    files == ['execution/partial_execution/impl/executor.py',
                              'impls/instructions/multi_phase/change_dir.py', 'util/file_utils/misc_utils.py']
                    and len(sites) == 3, 'enumeration', detail={'sites': sites})
+
+
+# ------------------------------------------------------------------------------ every instruction sees the current settings
+# _PartialExecutor: ONE InstructionSettings object and ONE setup settings builder live through the whole
+# execution; the environment handed to an instruction is computed when the instruction is about to run.
+
+import types as _types
+
+from exactly_lib.execution.partial_execution.impl import executor as pexe
+from exactly_lib.execution.partial_execution.configuration import ConfPhaseValues
+from exactly_lib.execution.partial_execution.setup_settings_handler import (StandardSetupSettingsHandler,
+                                                                           AtcExecutionInputAdv)
+from exactly_lib.execution.impl import phase_step_executors as pse
+from exactly_lib.test_case import phase_identifier
+from exactly_lib.test_case.phases.act.execution_input import AtcExecutionInput
+from exactly_lib.impls.actors.util import atc_proc_exe_settings
+
+P_EXE = 'exactly_lib.execution.partial_execution.impl.executor'
+P_SSH = 'exactly_lib.execution.partial_execution.setup_settings_handler'
+
+
+class TmpSpaceFactoryI(Interface):
+    methods = {'instruction__main': Method(returns=Any_, event='tmp-space'),
+               'instruction__validation': Method(returns=Any_),
+               'for_phase__main': Method(returns=Any_), 'for_phase__validation': Method(returns=Any_)}
+
+
+class ExeConfI(Interface):
+    """ExecutionConfiguration (a tuple with read-only properties)"""
+    attrs = {'mem_buff_size': Int, 'environ': Opt(ENVIRON), 'timeout_in_seconds': Opt(Int),
+             'default_environ_getter': Iface(DefaultEnvironGetterI), 'os_services': Any_,
+             'predefined_symbols': Any_, 'exe_atc_and_skip_assertions': Any_}
+
+
+def _mk_executor(interp, name):
+    ex = object.__new__(pexe._PartialExecutor)
+    ex._instruction_settings = SETTINGS.make(interp, name + '._instruction_settings')
+    ex._setup_settings_handler = Inst(StandardSetupSettingsHandler, _builder=SETUP_SETTINGS) \
+        .make(interp, name + '._setup_settings_handler')
+    ex.conf_values = Inst(ConfPhaseValues, _tuple=[Any_, Any_]).make(interp, name + '.conf_values')
+    ex.exe_conf = Iface(ExeConfI).make(interp, name + '.exe_conf')
+    ex._PartialExecutor__sandbox_directory_structure = Any_.make(interp, name + '.sds')
+    ex._PartialExecutor__post_sds_symbol_table = Any_.make(interp, name + '.post_sds_symbol_table')
+    ex._phase_tmp_space_factory = Iface(TmpSpaceFactoryI).make(interp, name + '._phase_tmp_space_factory')
+    return ex
+
+
+EXECUTOR = Custom(_mk_executor)
+
+
+def _is_current_view(proc_exe_settings, settings):
+    """(timeout, environ) == the settings now; the environ is a read-only view of the non-act set (None if unset)"""
+    e = proc_exe_settings.environ
+    return proc_exe_settings.timeout_in_seconds == settings.timeout_in_seconds() \
+        and (e is None if settings.environ() is None
+             else (e is not None and isinstance(e, _types.MappingProxyType) and e == settings.environ()))
+
+
+M.contract(P_EXE + ':_PartialExecutor._env_vars__read_only', params=dict(self=EXECUTOR), inline=True,
+           ensures={'a read-only view of the current non-act set': lambda self, result:
+           (result is None if self._instruction_settings.environ() is None else
+            (result is not None and isinstance(result, _types.MappingProxyType)
+             and result == self._instruction_settings.environ()))},
+           raises_only=())
+
+M.contract(P_EXE + ':_PartialExecutor._post_sds_environment',
+           params=dict(self=EXECUTOR, tmp_file_storage=Any_, symbols=Any_), inline=True,
+           ensures={
+               'process settings = the timeout and non-act set in force at the call': lambda self, result:
+               _is_current_view(result.proc_exe_settings, self._instruction_settings),
+               'the given symbol table and tmp space': lambda self, tmp_file_storage, symbols, result:
+               result.symbols is symbols and result.tmp_dir__path_access is tmp_file_storage,
+           }, raises_only=())
+
+
+def two_instructions(executor, phase, seconds, name, value):
+    """Harness: the environments of two consecutive instructions of a phase, the first of which changes the
+    timeout and an environment variable (through the shared InstructionSettings, as `timeout` / `env` do)."""
+    environments = executor._post_sds_main_environments(phase)
+    first = next(environments)
+    seen_by_first = (first.proc_exe_settings.timeout_in_seconds,
+                     None if first.proc_exe_settings.environ is None else dict(first.proc_exe_settings.environ))
+    settings = executor._instruction_settings
+    settings.set_timeout(seconds)
+    if settings.environ() is None:
+        settings.set_environ(settings.default_environ_getter())
+    settings.environ()[name] = value
+    second = next(environments)
+    return seen_by_first, second
+
+
+M.contract('contracts.C11_settings:two_instructions',
+           params=dict(executor=EXECUTOR, phase=Any_, seconds=Opt(Int), name=Str, value=Str),
+           modifies=('executor._instruction_settings',),
+           old=lambda executor: (executor._instruction_settings.timeout_in_seconds(),
+                                 _snapshot(executor._instruction_settings.environ())),
+           ensures={
+               'the first instruction saw the settings before its own change (no effect backwards)':
+                   lambda result, old: result[0][0] == old[0] and (result[0][1] is None if old[1] is None
+                                                                   else result[0][1] == old[1]),
+               'the next instruction sees the changed timeout and environment (effect forwards)':
+                   lambda seconds, name, value, result:
+                   result[1].proc_exe_settings.timeout_in_seconds == seconds
+                   and result[1].proc_exe_settings.environ is not None
+                   and result[1].proc_exe_settings.environ[name] == value,
+               'both get the execution-time symbol table; tmp spaces numbered 1, 2': lambda executor, result, trace:
+               result[1].symbols is executor._PartialExecutor__post_sds_symbol_table
+               and [e[2][1] for e in trace if e[0] == 'tmp-space'] == [1, 2],
+           }, raises_only=())
+
+
+# --- the main-step executors: next() immediately before main, the shared settings objects as arguments
+
+class EnvironmentsI(Interface):
+    methods = {'__next__': Method(returns=Iface(InstructionEnvironmentI), event='next-environment')}
+
+
+class MainResultI(Interface):
+    attrs = {'is_success': Bool, 'failure_message': Any_, 'status': Any_}
+
+
+class InstructionI(Interface):
+    methods = {'main': Method(returns=Iface(MainResultI), event='main')}
+
+
+from exactly_lib.test_case.result import pfh
+
+
+class AssertResultI(Interface):
+    attrs = {'status': EnumOf(pfh.PassOrFailOrHardErrorEnum), 'failure_message': Any_}
+
+
+class AssertInstructionI(Interface):
+    methods = {'main': Method(returns=Iface(AssertResultI), event='main')}
+
+
+def _main_got_current(self, trace, settings_position, extra=()):
+    """one environment was taken, and main then got exactly it, the shared settings (and builder)"""
+    nexts = [(i, e) for i, e in enumerate(trace) if e[0] == 'next-environment:returned']
+    mains = [(i, e) for i, e in enumerate(trace) if e[0] == 'main']
+    ok = len(nexts) == 1 and len(mains) == 1 and nexts[0][0] < mains[0][0]
+    args = mains[0][1][2]
+    ok = ok and args[0] is nexts[0][1][2] and args[settings_position] is self._instruction_settings
+    for (pos, obj) in extra:
+        ok = ok and args[pos] is obj
+    return ok
+
+
+M.contract('exactly_lib.execution.impl.phase_step_executors:SetupMainExecutor.apply',
+           params=dict(self=Inst(pse.SetupMainExecutor, _instruction_settings=SETTINGS, _os_services=Any_,
+                                 _instruction_environments=Iface(EnvironmentsI), _settings_builder=SETUP_SETTINGS),
+                       instruction=Iface(InstructionI)),
+           ensures={'main gets the environment computed just before it, the shared settings and the builder':
+                    lambda self, trace: _main_got_current(self, trace, 1, ((3, self._settings_builder),))},
+           raises_only=())
+
+for _cls, _instr in (('BeforeAssertMainExecutor', InstructionI), ('AssertMainExecutor', AssertInstructionI)):
+    M.contract('exactly_lib.execution.impl.phase_step_executors:%s.apply' % _cls,
+               params=dict(self=Inst(getattr(pse, _cls), _instruction_settings=SETTINGS, _os_services=Any_,
+                                     _instruction_environments=Iface(EnvironmentsI)),
+                           instruction=Iface(_instr)),
+               ensures={'main gets the environment computed just before it and the shared settings':
+                        lambda self, trace: _main_got_current(self, trace, 1)},
+               raises_only=())
+
+M.contract('exactly_lib.execution.impl.phase_step_executors:CleanupMainExecutor.apply',
+           params=dict(self=Inst(pse.CleanupMainExecutor, _instruction_settings=SETTINGS, _os_services=Any_,
+                                 _instruction_environments=Iface(EnvironmentsI), _previous_phase=Any_),
+                       instruction=Iface(InstructionI)),
+           ensures={'main gets the environment computed just before it and the shared settings':
+                    lambda self, trace: _main_got_current(self, trace, 1)},
+           raises_only=())
+
+
+# --- the act phase gets the act set and the current timeout
+
+M.contract(P_SSH + ':StandardSetupSettingsHandler.as_atc_execution_input',
+           params=dict(self=Inst(StandardSetupSettingsHandler, _builder=SETUP_SETTINGS)), inline=True,
+           ensures={'the act set (the dict itself, as it is now)': lambda self, result:
+           result.environ is self._builder.environ}, raises_only=())
+
+M.contract(P_SSH + ':AtcExecutionInputAdv.resolve',
+           params=dict(self=Inst(AtcExecutionInputAdv, _stdin=Const(None), _environ=Opt(ENVIRON)), environment=Any_),
+           inline=True,
+           ensures={'the act set': lambda self, result: result.environ is self._environ}, raises_only=())
+
+M.contract('exactly_lib.impls.actors.util.atc_proc_exe_settings:for_atc',
+           params=dict(environment=Iface(InstructionEnvironmentI),
+                       execution_input=Inst(AtcExecutionInput, _tuple=[Any_, Opt(ENVIRON)])),
+           inline=True,
+           ensures={'the act process gets (timeout of its environment, the act set)':
+                    lambda environment, execution_input, result:
+                    result.timeout_in_seconds == environment.proc_exe_settings.timeout_in_seconds
+                    and result.environ is execution_input.environ},
+           raises_only=())
